@@ -9,7 +9,7 @@
 From Coq Require Import Permutation Sorted.
 From V.Lib Require Import Base MachInt.
 From V.Gen Require Import C17Consts.
-From V.C17 Require Import Model Spec Corr Wf ProofsArith ProofsShuffle ProofsAnchor ProofsWake ProofsClassify ProofsCanon ProofsPerm ProofsWake2 ProofsShift ProofsRebuild Bridge.
+From V.C17 Require Import Model Spec Corr Wf ProofsArith ProofsShuffle ProofsAnchor ProofsWake ProofsClassify ProofsCanon ProofsPerm ProofsWake2 ProofsShift ProofsRebuild ProofsPlumb Bridge.
 Local Open Scope Z_scope.
 
 (* ------------------------------------------------------------------------------------------ *)
@@ -97,6 +97,24 @@ Proof. exact default_dists_valid. Qed.
 
 Theorem C17_scale_delay_range : forall I v, 0 < I -> 0 <= v -> 1 <= scale_delay I v <= u32_max.
 Proof. exact scale_delay_range. Qed.
+
+(** PARAMETER PLUMBING (SchedulingParams::new, new_with_default_distributions, the wallet adapter's
+    scheduling_params): configured distributions reach their own slots on the given grid ... *)
+Theorem C17_params_slots : forall I a ca b cb, scheduling_params I (Some (a, ca, b, cb)) = (I, a, ca, b, cb).
+Proof. exact params_slots. Qed.
+
+(** ... the parameters pass the executable checker (own slots; scaled ZIP 318 values when nothing is
+    configured; every mean within its cap) ... *)
+Theorem C17_params_ok_model : forall I cfg, 0 < I -> cfg_wf cfg -> params_ok I cfg (scheduling_params I cfg) = true.
+Proof. exact params_ok_model. Qed.
+
+(** ... and every gap drawn under them respects the cap configured for ITS OWN schedule *)
+Theorem C17_plumb_gaps_within_own_cap : forall I a ca b cb,
+  let '(_, _, tc, _, pc) := scheduling_params I (Some (a, ca, b, cb)) in
+  forall n h ds hs r, Forall (fun x => 0 <= x) ds -> h <= u32_max ->
+    (cumulative_heights tc n h ds = Ok (hs, r) -> length hs = n /\ steps_ok ca h hs = true) /\
+    (cumulative_heights pc n h ds = Ok (hs, r) -> length hs = n /\ steps_ok cb h hs = true).
+Proof. exact plumb_gaps_within_own_cap. Qed.
 
 (* ------------------------------------------------------------------------------------------ *)
 (** * Uniform index and shuffle *)
